@@ -519,7 +519,7 @@ Definition do_poll (s : st) (f w : N) : st * res :=
             let rest' := skipn j rest in
             let sent' := sent + N.of_nat j in
             if is_nil rest'
-            then (put_f f (mkF (fh fr) (FSendB [] sent' total) None) s1, RReady (RBatchOk total))
+            then (put_f f (mkF (fh fr) (FSendB [] sent' total) None) (unreg_send f s1), RReady (RBatchOk total))
             else
               let s2 := set_sq s1 (sq (unreg_send f s1) ++ [(f, w)]) in
               (put_f f (mkF (fh fr) (FSendB rest' sent' total) (Some (w, wk s2 w))) s2, RPending)
